@@ -219,7 +219,7 @@ async fn scripted(name: &str, case: usize, summary: &mut Summary) -> (Sim, Strin
             }
             summary.count("scripted", &format!("{}:{}:capped-blocks-{}", name, if halted { "halted" } else { "alive-after-30" }, tally.capped.min(9)));
             if halted || sim.tip().treasury < sim.gp * sim.tip().avg_nolan_rebroadcast_per_block {
-                summary.oracle_failure(case, &format!("payout-multiplier scenario: halted {} at tip {} (treasury {}, avg rebroadcast {})", halted, sim.tip().id, sim.tip().treasury, sim.tip().avg_nolan_rebroadcast_per_block), &desc);
+                summary.oracle_failure(case, &format!("coverage / liveness: payout-multiplier scenario: halted {} at tip {} (treasury {}, avg rebroadcast {}; the scenario needs treasury >= genesis_period * average volume)", halted, sim.tip().id, sim.tip().treasury, sim.tip().avg_nolan_rebroadcast_per_block), &desc);
             }
         }
         // deterministic scenario in which the rebroadcast section pays out of the treasury: multiplier >= 2
@@ -334,7 +334,6 @@ async fn scripted(name: &str, case: usize, summary: &mut Summary) -> (Sim, Strin
             let mut edited = created.clone();
             let atr_pos: Vec<usize> = edited.transactions.iter().enumerate().filter(|(_, t)| t.transaction_type == TransactionType::ATR).map(|(i, _)| i).collect();
             summary.count("scripted", &format!("{}:atr-txs-{}", name, atr_pos.len()));
-            let expect_known: Option<&str> = None;
             match name {
                 "atr-omitted" => {
                     edited.transactions.remove(atr_pos[0]);
@@ -407,34 +406,9 @@ async fn scripted(name: &str, case: usize, summary: &mut Summary) -> (Sim, Strin
             reseal(&mut edited, &sim.keys[0].1);
             let before = utxo_keys(&sim);
             let sr = sim.step(ts, gt, &txs, CreateOutcome::Ok, Some(created.clone()), Some(edited.clone())).await;
-            match (&sr.add, expect_known) {
-                (Some(AddClass::Invalid), _) => {}
-                (other, Some(id)) => {
-                    let sup = std::panic::catch_unwind(AssertUnwindSafe(|| big_supply(&sim.node))).ok().flatten();
-                    let what = format!(
-                        "edited block ({}) is not rejected: {:?} {} (supply now {:?}, issued {}; rebroadcast inputs {:?})",
-                        name,
-                        other,
-                        sr.panic_msg.clone().unwrap_or_default(),
-                        sup,
-                        sim.issued,
-                        edited.transactions.iter().filter(|t| t.transaction_type == TransactionType::ATR).map(|t| t.from.iter().map(|f| (f.block_id, f.tx_ordinal, f.slip_index, f.amount)).collect::<Vec<_>>()).collect::<Vec<_>>()
-                    );
-                    summary.known_hit(id, case, &what);
-                    if *other == Some(AddClass::OnChain) {
-                        // what the property says about this block
-                        let (mult, fpb) = (1u128, sim.chain[sim.chain.len() - 2].avg_fee_per_byte as u128);
-                        let next_id = edited.id;
-                        let e = if next_id > sim.gp + 1 { sim.chain.iter().find(|b| b.id == next_id - sim.gp - 1).cloned() } else { None };
-                        let rep = atr_oracle(&mut sim, &edited, e.as_ref(), &before, mult, fpb, u128::MAX);
-                        for f in rep.failures.iter().take(3) {
-                            summary.known_hit(id, case, f);
-                        }
-                    }
-                }
-                (other, None) => {
-                    summary.oracle_failure(case, &format!("edited block ({}) is not rejected: {:?} {}", name, other, sr.panic_msg.clone().unwrap_or_default()), &desc);
-                }
+            let _ = before;
+            if sr.add != Some(AddClass::Invalid) {
+                summary.oracle_failure(case, &format!("edited block ({}) is not rejected: {:?} {}", name, sr.add, sr.panic_msg.clone().unwrap_or_default()), &desc);
             }
             // after a rejected edit the honest block must still be accepted and pass the oracle
             if sr.add == Some(AddClass::Invalid) {
